@@ -148,3 +148,37 @@ pub fn plan_meta_view(plan: &Plan) -> PlanMetaView {
         os2_max_cmap_codepoint: plan.os2_info.max_cmap_codepoint,
     }
 }
+
+/// The plan fields read by the `COLR` and `CPAL` subsetters (hash maps as vectors sorted by key).
+#[derive(Clone, Debug, Default, PartialEq, Eq)]
+pub struct PlanColrView {
+    /// old -> new COLRv1 layer index
+    pub colrv1_layers: Vec<(u32, u32)>,
+    /// old -> new palette entry index
+    pub colr_palettes: Vec<(u16, u16)>,
+    /// per source ItemVariationData: the retained inner indices in new-index order (`IncBiMap::keys`)
+    pub colr_varstore_inner_maps: Vec<Vec<u32>>,
+    /// old variation index (or delta-set index when a DeltaSetIndexMap exists) -> (new index, delta)
+    pub colr_varidx_delta_map: Vec<(u32, (u32, i32))>,
+    /// new delta-set index -> new variation index
+    pub colr_new_deltaset_idx_varidx_map: Vec<(u32, u32)>,
+}
+
+pub fn plan_colr_view(plan: &Plan) -> PlanColrView {
+    fn sorted<K: Ord + Copy, V: Copy>(m: &fnv::FnvHashMap<K, V>) -> Vec<(K, V)> {
+        let mut v: Vec<(K, V)> = m.iter().map(|(k, v)| (*k, *v)).collect();
+        v.sort_by_key(|x| x.0);
+        v
+    }
+    PlanColrView {
+        colrv1_layers: sorted(&plan.colrv1_layers),
+        colr_palettes: sorted(&plan.colr_palettes),
+        colr_varstore_inner_maps: plan
+            .colr_varstore_inner_maps
+            .iter()
+            .map(|m| m.keys().copied().collect())
+            .collect(),
+        colr_varidx_delta_map: sorted(&plan.colr_varidx_delta_map),
+        colr_new_deltaset_idx_varidx_map: sorted(&plan.colr_new_deltaset_idx_varidx_map),
+    }
+}
